@@ -16,7 +16,7 @@
  *   VERIF_MODDEPS  file with one line per module:  "<name>: <item> <item> ..."; the constructor
  *                  of <name> walks its items in order:
  *                      dep      module_depends("dep", NULL)
- *                      ~dep     module_antidepends("dep", NULL)   (not part of C20's contract)
+ *                      ~dep     module_antidepends("dep", NULL)   (the same edge declared by its target)
  *                      !        module_is_backend()               (not part of C20's contract)
  *   VERIF_MODLOG   event log, one ndjson line per event, each written with a single
  *                  write(2) on an O_APPEND descriptor:
